@@ -42,6 +42,7 @@ TRUSTED_BASE = [
     "binascii.hexlify/unhexlify, base64.b64encode/b64decode, base64.b32encode/b32decode behave as the model's hex/base64/base32hex codecs (which are proved mutual inverses; tied by the correspondence ops)",
     "time.gmtime/strftime and calendar.timegm behave as the model's civil-calendar conversion on 0..2^32-1 (proved inverse in the model by exhaustive kernel evaluation; tied by the RRSIG/SIG correspondence cases)",
     "Python str/bytes/int semantics: int(str, 10) on ASCII, str.encode() = UTF-8, bytes.split/isdigit",
+    "CPython float(str) is correctly rounded to binary64 (GPOS: the latitude / longitude range test is modelled as the exact rational comparison |N/10^d| <= B + 2^-k that correct rounding implies; boundary strings are in the correspondence corpus)",
 ]
 ASSUMPTIONS = [
     "well-formed for text (WfText) excludes values that dnspython accepts from wire but whose presentation form cannot express them: an empty trailing hex/base64 blob (digest, key, signature, certificate, fingerprint, HIP hit/key, TKEY key, TSIG mac, NSEC3 next), KEY with NOKEY flags and key data, type bitmaps with an all-zero or zero-terminated window or with bit 0 of window 0, WKS bitmaps with trailing zero octets; these are counted (histogram degenerate.*), never reported",
@@ -50,6 +51,9 @@ ASSUMPTIONS = [
     "base64 text that is not canonical (foreign characters, data after padding) is accepted liberally by base64.b64decode; such inputs are outside the model's strict codec and are skipped by the correspondence check (counted: corr.skip.noncanonical-base64); non-ASCII text in name fields (IDNA) and Unicode digits/spaces beyond Latin-1 are outside the model",
     "IDNA / non-ASCII name text, omit_final_dot, truncate_crypto (documented as lossy) are outside the property",
     "the legacy to_text(separator=...) keyword raises TypeError in dns/style.py (maps to a non-existent field); it is undocumented and outside the anchored files, so it is noted, not checked",
+    "WKS protocol and service mnemonics are resolved by the host's getprotobyname / getservbyname and are outside the model (only the numeric forms, which to_text always produces; counted corr.skip.wks-mnemonic-or-non-ascii-digits); APL items of a family other than 1/2 have no text form (known finding) and are skipped by the print correspondence",
+    "IPSECKEY / AMTRELAY keep a gateway address as the text that was given (after inet_aton validation); WfText asks for a plain token that inet_aton accepts, which inet_ntoa's output is (gatewayOk_wire4/6)",
+    "texts longer than 20000 characters (the oversized-key witnesses) are checked by the oracle only (model run time)",
     "per-type proof status (proved / modelled / oracle-only) is listed in the evidence under coverage.type_status",
 ]
 
@@ -220,6 +224,11 @@ def trigger_class(tname, rdclass, rdtype, rd, origin, recheck):
             return "unknown-address-family"
     if tname == "IPSECKEY" and rd.algorithm == 0 and len(rd.key) == 0:
         return "algorithm-0-no-key"
+    if tname in ("L64", "NID"):
+        # the text is stored as written; int(chunk, 16) strips whitespace, so an escaped blank can sit inside a chunk
+        stored = rd.locator64 if tname == "L64" else rd.nodeid
+        if any(ch in ' \t\n;()"' for ch in stored):
+            return "tokenizer-delimiter-in-stored-hex-chunk"
     return "other"
 
 
@@ -261,7 +270,7 @@ def eval_rt(ctx: Ctx, c: dict):
             return
     text = texts[1]
     corr_print(ctx, c, tname, rd, st, origin, text)
-    if tname in MODEL and tname not in NOWIRE:
+    if tname in MODEL and tname not in NOENC:
         # the model's wire encoder (used by the generic-form re-encode check and by `text_accepts_encodable`)
         wo = origin if origin is not None else dns.name.root
         try:
@@ -457,6 +466,10 @@ def eval_ft(ctx: Ctx, c: dict):
             a = rd.altitude
             if not (math.isfinite(a) and 0 <= int(a) + 10000000 <= 0xFFFFFFFF):
                 trig = "altitude-out-of-range"
+        if tname == "HIP" and len(rd.key) > 65535:
+            trig = "key-longer-than-its-16-bit-length-field"
+        if tname == "TKEY" and (len(rd.key) > 65535 or len(rd.other) > 65535):
+            trig = "key-or-other-longer-than-its-16-bit-length-field"
         _fail(ctx, f"C05/text-accepted-encodes/{tname}/raises/{trig}",
                  f"{tname}: {text!r} is accepted by from_text but to_wire raises {e!r}", rep)
         return
@@ -553,12 +566,14 @@ MODEL = {
     "NSEC3": ([("algorithm", "u"), ("flags", "u"), ("iterations", "u"), ("salt", "b"), ("next", "b")], ("windows", "wl")),
     "APL": ([], ("items", "apl")),
     "WKS": ([], ("bitmap", "wks")),
+    "GPOS": ([("latitude", "b"), ("longitude", "b"), ("altitude", "b")], None),
     "IPSECKEY": ([("precedence", "u"), ("gateway_type", "u"), ("algorithm", "u")], ("key", "gw")),
     "AMTRELAY": ([("precedence", "u"), ("discovery_optional", "u"), ("relay_type", "u")], ("relay", "gw")),
 }
 B64_TAIL = {"DNSKEY", "CDNSKEY", "DHCID", "OPENPGPKEY", "BRID", "HHIT", "CERT", "KEY", "RRSIG", "SIG", "IPSECKEY"}
 B64_TAIL_SKIP = {"IPSECKEY": 1}  # tokens of the tail before the base64 text (the gateway)
-NOWIRE = {"HIP", "TKEY", "TSIG", "IPSECKEY", "AMTRELAY", "APL", "WKS"}  # modelled without a wire codec: their generic form is oracle-only
+NOWIRE = {"HIP", "TKEY", "TSIG", "IPSECKEY", "AMTRELAY", "APL", "WKS"}  # modelled without a wire decoder: their generic form is oracle-only
+NOENC = {"HIP", "TKEY", "AMTRELAY"}  # ... and without a wire encoder (to_wire: oracle only)
 B64_ONE = {"HIP": ["key"], "TKEY": ["key"], "TSIG": ["mac", "other"]}  # base64 values read from a single token
 TXT_LIKE = {"TXT", "SPF", "AVC", "NINFO", "RESINFO", "WALLET"}
 
@@ -636,6 +651,9 @@ def corr_print(ctx, c, tname, rd, st, origin, text):
 def model_corr_fromtext(ctx, c, tname, text, origin, rel, rd, relto=None):
     """rd: the implementation's from_text result or None when it raised a DNSException"""
     if tname not in MODEL and not tname.startswith("TYPE"):
+        return
+    if len(text) > 20000:
+        ctx.count("corr.skip.text-longer-than-20000-characters")   # the oversized-key witnesses: oracle only (model time)
         return
     generic = text.lstrip(" \t(").startswith("\\#")
     if tname in MODEL and (any(k == "nm" for _, k in MODEL[tname][0]) or (MODEL[tname][1] or ("", ""))[1] in ("nl", "gw")) and not ascii_only_names(text):
@@ -944,15 +962,18 @@ MISC_ATOMS = ["0123456789abcdefghijklmnopqrstuv", "2t7b4g4vsa5smi47k61mv5bv1a22b
               "99999999999m", "nanm", "infm", "1e3m", "4435.61m", "0.07m", "90000000.00m", "(", ")", ";c", "TCP", "tcp", "smtp", "0x", "0xab", "-", "!1:1.2.3.4/8",
               "1:0.0.0.0/0", "3:ab/8", "2:::/0", "!2:1::/128", "2:1::/129", "1:1.2.3.4/33", "1:1.2.3.4/+8", "+1:1.2.3.4/8", "0x1:1.2.3.4/8", "1:1.2.3.4",
               "1.2.3.4/8", "!", "!!1:1.2.3.4/8", "1:1.2.3.4/8/9", "1:2:1.2.3.4/8", "2:1:2::3/64", "65536:ab/8", "-0:ab/8", '"1:1.2.3.4/8"', "1_0:1.2.3.4/8",
-              "01:1.2.3.4/08", "1:1.2.3.4/-0", "1:1.2.3.4/", ":1.2.3.4/8", "2:::ffff:1.2.3.4/96", "1:01.2.3.4/8", "alpn=h2", 'alpn="h2,h3"', "port=53", "no-default-alpn", "key65280=abc", "mandatory=alpn", "20240101000000", "1700000000"]
+              "01:1.2.3.4/08", "1:1.2.3.4/-0", "1:1.2.3.4/", ":1.2.3.4/8", "2:::ffff:1.2.3.4/96", "1:01.2.3.4/8",
+              "90.00000000000000710542735760100185871124267578125", "90.000000000000007105427357601001858711242675781251", "-90.00000000000000710542735760100185871124267578125", "-90.000000000000007105427357601001858711242675781251", "90.00000000000000710542735760100185871124267578124", "90.0", "+90.", "90.00000000000001", "-90.00000000000002", "91", "180.0000000000000142108547152020037174224853515625", "180.00000000000001421085471520200371742248535156251", "-180.0000000000000142108547152020037174224853515625", "-180.00000000000001421085471520200371742248535156251", "180.0000000000000142108547152020037174224853515624", "180.0", "+180.", "180.00000000000001", "-180.00000000000002", "181", ".5", "5.", ".", "+.", "-.5", "1.2.3", "1e5", "00090.000", "-0",
+              "alpn=h2", 'alpn="h2,h3"', "port=53", "no-default-alpn", "key65280=abc", "mandatory=alpn", "20240101000000", "1700000000"]
 ALL_ATOMS = NUM_ATOMS + STR_ATOMS + NAME_ATOMS + BLOB_ATOMS + ADDR_ATOMS + MISC_ATOMS
+ESC_POOL = ["\\032", "\\009", "\\010", "\\059", "\\040", "\\041", "\\034", "\\092", "\\000", "\\127", "\\200", "\\255", "\\ ", "\\;", "\\(", '\\"', "\\\\", "\\."]
 CHAR_POOL = ['"', "\\", " ", "\t", ";", "(", ")", "\n", ".", "@", "0", "9", "a", "Z", "\x00", "\x7f", "\xe9", "=", ",", "-", "+", "_", ":", "/", "!"]
 
 
 def mutate_text(rng, text):
     toks = text.split(" ")
     for _ in range(rng.choice([1, 1, 1, 2, 3])):
-        m = rng.below(7)
+        m = rng.below(9)
         i = rng.below(len(toks)) if toks else 0
         if m == 0 and toks:
             toks[i] = rng.choice(ALL_ATOMS)
@@ -974,6 +995,17 @@ def mutate_text(rng, text):
             t = toks[i]
             j = rng.below(len(t))
             toks[i] = t[:j] + rng.choice(CHAR_POOL) + t[j + 1:]
+        elif m == 7 and toks:
+            # an escaped delimiter / blank / special inside a token: accepted values must still print to parseable text
+            t = toks[i]
+            j = rng.below(len(t) + 1)
+            toks[i] = t[:j] + rng.choice(ESC_POOL) + t[j:]
+        elif m == 8 and toks and toks[i]:
+            # spell one character as \DDD (Latin-1 only)
+            t = toks[i]
+            j = rng.below(len(t))
+            if ord(t[j]) < 256 and t[j] != "\\":
+                toks[i] = t[:j] + "\\%03d" % ord(t[j]) + t[j + 1:]
     return " ".join(toks)
 
 
@@ -1185,14 +1217,16 @@ def gen_ft(ctx: Ctx, scale: float, rng):
 PROVED = ["A", "AAAA", "NS", "CNAME", "PTR", "DNAME", "NSAP-PTR", "MX", "AFSDB", "RT", "KX", "LP", "PX", "SRV", "RP", "SOA", "TXT", "SPF", "AVC",
           "NINFO", "RESINFO", "WALLET", "HINFO", "X25", "ISDN", "NAPTR", "CAA", "URI", "DS", "DLV", "CDS", "TLSA", "SMIMEA", "SSHFP", "ZONEMD", "DNSKEY",
           "CDNSKEY", "DHCID", "OPENPGPKEY", "BRID", "HHIT", "L32", "NSEC3PARAM", "CH-A", "EUI48", "EUI64", "NID", "L64", "NSAP", "CERT", "DSYNC", "KEY", "RRSIG", "SIG", "NSEC", "CSYNC", "NSEC3", "HIP", "TKEY", "TSIG",
-          "IPSECKEY", "AMTRELAY", "APL", "WKS"]
+          "IPSECKEY", "AMTRELAY", "APL", "WKS", "GPOS"]
 
 
 def type_status():
     out = {}
     for (_, _, tname, _) in TYPES:
-        if tname in PROVED and tname in NOWIRE:
+        if tname in PROVED and tname in NOENC:
             out[tname] = "proved (model + correspondence + parseText_printText; to_wire / generic form oracle-only)"
+        elif tname in PROVED and tname in NOWIRE:
+            out[tname] = "proved (model + correspondence + parseText_printText + text_accepts_encodable; generic form oracle-only)"
         elif tname in PROVED:
             out[tname] = "proved (model + correspondence + parseText_printText + text_accepts_encodable)"
         elif tname in MODEL:
@@ -1284,8 +1318,8 @@ def impl_of_op(op: str) -> str:
 
 
 LEVEL = {
-    "text": "Lean 4 theorems over executable models of the text codecs (dns/ipv4.py, dns/ipv6.py in full, dns.rdata._escapify, Token.unescape / unescape_to_bytes, the tokenizer as one automaton, _escapify_unicode and the txt_is_utf8 style of the TXT-like types, _wordbreak chunking with concatenate_remaining_identifiers, Python int()/dns.ttl, hex, base64 and base32hex, mnemonic tables (rdatatype, DNSSEC algorithm, CERT type, DSYNC scheme, KEY flags/protocol, rcode), RRSIG times through the civil-calendar conversion (checked exhaustively over 1970-01-01..2106-02-07), NSEC/NSEC3/CSYNC type bitmaps (on top of C15's from_rdtypes), name fields on top of the C01 model under every origin/relativize configuration that does not rewrite names, the generic \\# form with its re-encode check, and a per-type schema table for 60 record classes): inet_aton(inet_ntoa(a)) = a for IPv4 and IPv6 (every zero-run / embedded-IPv4 shape), the quoted character-string round trip for all 256 octets on the octet path, with the code-point path get_string characterised separately (exact below 0x80, counter-example proved), blob round trips under every lossless chunking style, the generic form of unknown and known types, parse(print v) = v through dns.rdata.from_text for all 60 schema classes (parseText_printText), and `accepted from text => encodable to wire` (text_accepts_encodable) for the 57 of them whose wire form is modelled. Tied to the code by a differential correspondence check on every modelled function (print, parse and to_wire direction, malformed streams) and by constants/tables regenerated from the working tree; completed by a direct round-trip / totality / encodability oracle on the implementation over all 69 implemented record classes.",
-    "note": "Trusted: Lean kernel + propext/Classical.choice/Quot.sound; the statements in lean/Props/C05.lean; the correspondence harness and its generators (differential testing bounds the tie). 9 record classes (LOC, APL, SVCB, HTTPS, IPSECKEY, AMTRELAY, WKS, GPOS, OPT) are covered by the oracle only; HIP, TKEY, TSIG have a proved text round trip but their to_wire (and therefore their generic form and encodability) is oracle-only. text_accepts_encodable is stated over the model's own to_wire (encRec, tied by the correspondence op c05.wire.enc); it is not composed with the C02 message codec theorems because C02 models different field kinds. Name fields: proved unchanged for (a) no origin anywhere, (b) absolute names with relativize=False under any origin, (c) the zone-file configuration (absolute origin, relativize=True; printing against no origin or the same origin); in the remaining configurations as_name provably returns nameBack (the derelativized / re-relativized name), which is equal modulo the origin. Per-type status is written to the evidence (coverage.type_status).",
+    "text": "Lean 4 theorems over executable models of the text codecs (dns/ipv4.py, dns/ipv6.py in full, dns.rdata._escapify, Token.unescape / unescape_to_bytes, the tokenizer as one automaton, _escapify_unicode and the txt_is_utf8 style of the TXT-like types, _wordbreak chunking with concatenate_remaining_identifiers, Python int()/dns.ttl, hex, base64 and base32hex, mnemonic tables (rdatatype, DNSSEC algorithm, CERT type, DSYNC scheme, KEY flags/protocol, rcode), RRSIG times through the civil-calendar conversion (checked exhaustively over 1970-01-01..2106-02-07), NSEC/NSEC3/CSYNC type bitmaps (on top of C15's from_rdtypes), WKS service bitmaps, APL items, IPSECKEY/AMTRELAY gateways, GPOS coordinates (float() range test as exact rational arithmetic), name fields on top of the C01 model under every origin/relativize configuration that does not rewrite names, the generic \\# form with its re-encode check, and a per-type schema table for 65 record classes): inet_aton(inet_ntoa(a)) = a for IPv4 and IPv6 (every zero-run / embedded-IPv4 shape), the quoted character-string round trip for all 256 octets on the octet path, with the code-point path get_string characterised separately (exact below 0x80, counter-example proved), blob round trips under every lossless chunking style, the generic form of unknown and known types, parse(print v) = v through dns.rdata.from_text for all 65 schema classes (parseText_printText), and `accepted from text => encodable to wire` (text_accepts_encodable) for 62 of them. Tied to the code by a differential correspondence check on every modelled function (print, parse and to_wire direction, malformed streams) and by constants/tables regenerated from the working tree; completed by a direct round-trip / totality / encodability oracle on the implementation over all 69 implemented record classes.",
+    "note": "Trusted: Lean kernel + propext/Classical.choice/Quot.sound; the statements in lean/Props/C05.lean; the correspondence harness and its generators (differential testing bounds the tie). 4 record classes are covered by the oracle only: LOC (binary floating-point arithmetic in altitude/size/precision), SVCB and HTTPS (the parameter syntax depends on token adjacency, `tok.get(want_leading=True)`, which the token model does not carry), OPT (no presentation format). HIP, TKEY, AMTRELAY have a proved text round trip but their to_wire is oracle-only (HIP/TKEY: `accepted from text => encodable` is false for a key longer than 65535 octets, a known finding); the generic \\# form of HIP, TKEY, TSIG, IPSECKEY, AMTRELAY, APL, WKS is oracle-only (no wire decoder in the model). text_accepts_encodable is stated over the model's own to_wire (encRec, tied by the correspondence op c05.wire.enc); it is not composed with the C02 message codec theorems because C02 models different field kinds. Name fields: proved unchanged for (a) no origin anywhere, (b) absolute names with relativize=False under any origin, (c) the zone-file configuration (absolute origin, relativize=True; printing against no origin or the same origin); in the remaining configurations as_name provably returns nameBack (the derelativized / re-relativized name), which is equal modulo the origin. Per-type status is written to the evidence (coverage.type_status).",
     "technique": "Lean 4 proof (escape and tokenizer automata, combinator round trips lifted over a schema table, IPv6 zero-run selection by exhaustive case analysis of the 256 zero patterns + list theory for split/join) + model-vs-implementation correspondence + direct oracle",
     "design_ref": "DESIGN.md §7 C05",
 }
